@@ -32,7 +32,8 @@ pub fn run_stream(out: &mut Out, prop: &str, rng: &mut Rng, n: u64) {
         if prop == "C15" {
             if let (Some(m), Outcome::Ok(got)) = (case.min_receive, &run.exec) { if *got < m { out.monitor_fail("C15", "router swap succeeded below minimum_receive", replay.clone()); } }
             if let (Some(m), Outcome::Err(c), Outcome::Ok(got)) = (case.min_receive, &run.exec, &base.exec) {
-                if *c == E_SLIPPAGE && *got >= m { out.monitor_fail("C15", "router swap within minimum_receive was rejected", replay.clone()); }
+                let _ = c;
+                if *got >= m { out.monitor_fail("C15", "router swap delivering at least minimum_receive was rejected", replay.clone()); }
             }
         }
         if let Outcome::Ok(g) = &run.exec { if *g > 0 && case.hops.len() >= 2 { out.nontrivial_key(hash_str(&case.coq())); } }
